@@ -112,6 +112,12 @@ func genC03(r *gen.Rand) *C03Case {
 		dir = c03Dir + "/rel[2024]"
 		w.Dirs = append(w.Dirs, dir)
 		c.Shape = append(c.Shape, "odd-directory")
+	} else if r.Chance(0.04) && dir == c03Dir {
+		// a directory whose name is not valid UTF-8 (created under a Latin-1
+		// locale): names are byte strings
+		dir = c03Dir + "/caf@E9@"
+		w.Dirs = append(w.Dirs, dir)
+		c.Shape = append(c.Shape, "non-utf8-directory")
 	}
 	comps := []string{"b", "c", "prod", "eu"}
 	gen.Shuffle(r, comps)
@@ -339,6 +345,15 @@ func genC03(r *gen.Rand) *C03Case {
 		c.Linear = false
 		c.Shape = append(c.Shape, "parent-invalid")
 	}
+	if r.Chance(0.08) && len(chain) >= 2 && c.Linear {
+		// a layer that is a named pipe (config produced by another program):
+		// it has no size to trust, only a stream to read to its end
+		if f := w.File(chain[r.Intn(len(chain)-1)]); f != nil && f.Raw == nil {
+			f.Fifo = true
+			c.Linear = false
+			c.Shape = append(c.Shape, "named-pipe-layer")
+		}
+	}
 	// noise that must not matter
 	if r.Chance(0.5) {
 		put(filepath.Join(dir, "unrelated.yaml"), map[string]any{"noise": 1})
@@ -450,7 +465,7 @@ func c03Expect(e *Env, pool *libsim.Pool, c *C03Case, root string, run int64) (b
 		for _, d := range f.Docs {
 			ds = append(ds, d.V)
 		}
-		docsByPath[filepath.Join(root, f.Path)] = ds
+		docsByPath[filepath.Join(root, procsim.Real(f.Path))] = ds
 	}
 	res := &model.Resolver{}
 	res.Docs = func(p string) ([]any, bool) {
@@ -459,19 +474,19 @@ func c03Expect(e *Env, pool *libsim.Pool, c *C03Case, root string, run int64) (b
 		if err != nil {
 			return nil, false
 		}
-		if fi, err := os.Stat(real); err != nil || !fi.Mode().IsRegular() {
+		if fi, err := os.Stat(real); err != nil || !(fi.Mode().IsRegular() || fi.Mode()&os.ModeNamedPipe != 0) {
 			return nil, false
 		}
 		ds, ok := docsByPath[real]
 		return ds, ok
 	}
-	cwd := filepath.Join(root, c.Cwd)
+	cwd := filepath.Join(root, procsim.Real(c.Cwd))
 	var loads []model.Load
 	var inputRoots []int // load index of each input's own file
 	format := c.Format
 	var starts []int
 	for _, in := range c.Inputs {
-		p := resolveAbs(root, in)
+		p := procsim.Real(resolveAbs(root, in))
 		if !filepath.IsAbs(p) {
 			p = filepath.Join(cwd, p)
 		}
@@ -559,7 +574,15 @@ func c03Invocation(c *C03Case, root string) *procsim.Invocation {
 			env[k] = v
 		}
 	}
-	return &procsim.Invocation{Kind: "inst", Args: args, Cwd: c.Cwd, Sched: &s, StepBudget: ProcStepBudget, Env: env}
+	inv := &procsim.Invocation{Kind: "inst", Args: args, Cwd: c.Cwd, Sched: &s, StepBudget: ProcStepBudget, Env: env}
+	for i := range c.World.Files {
+		if f := &c.World.Files[i]; f.Fifo {
+			if b, ok := f.Bytes(); ok {
+				inv.Fifos = append(inv.Fifos, procsim.FifoFeed{Path: f.Path, Content: b})
+			}
+		}
+	}
+	return inv
 }
 
 // applyFault damages one layer of the materialised world.
@@ -567,7 +590,7 @@ func c03ApplyFault(c *C03Case, root string, inv *procsim.Invocation) error {
 	if c.Fault == "" {
 		return nil
 	}
-	p := filepath.Join(root, c.FaultPath)
+	p := filepath.Join(root, procsim.Real(c.FaultPath))
 	switch c.Fault {
 	case "delete":
 		return os.Remove(p)
@@ -582,6 +605,7 @@ func c03ApplyFault(c *C03Case, root string, inv *procsim.Invocation) error {
 		}
 		return os.Mkdir(p, 0o755)
 	case "truncate-to-garbage":
+		_ = os.Remove(p) // (a named pipe must not be opened for writing here: nobody reads it yet)
 		return os.WriteFile(p, []byte("{\"a\": [1, 2"), 0o644)
 	case "openat-EIO":
 		inv.Injects = append(inv.Injects, procsim.Inject{Syscall: "openat", Path: c.FaultPath, Errno: "EIO"})
@@ -618,6 +642,7 @@ func judgeC03(e *Env, pool *libsim.Pool, c *C03Case, tag string, run int64) (*c0
 	obs.ModelErr = expectFail
 	for _, l := range loads {
 		rp, _ := filepath.Rel(root, l.Path)
+		rp = strings.ReplaceAll(rp, "caf\xe9", "caf@E9@") // back to the JSON-safe spelling
 		obs.Loads = append(obs.Loads, rp)
 		if !l.Wildcard {
 			obs.Named = append(obs.Named, rp)
